@@ -286,7 +286,80 @@ def shell_trick(wait, drop):
     return with_table(body)
 
 
-SCEN = {"deb:event-before-first-wait": lambda: deb_scenario("event-before-first-wait"), "deb:stop-before-first-wait": lambda: deb_scenario("stop-before-first-wait"),
+def watcher_stop_during_poll(exited_before_stop):
+    """the watcher thread is inside popen.poll(); stop() is called (and the child goes away, as in _stop_process);
+    a stopped watcher must not call back.  Also the end-to-end count: one event = one restart = one new child."""
+    from watchdog.utils.process_watcher import ProcessWatcher
+    out = []
+    in_poll, go = threading.Event(), threading.Event()
+    state = {"alive": True, "polls": 0}
+
+    class P:
+        def poll(self):
+            state["polls"] += 1
+            if state["polls"] == 1:
+                in_poll.set()
+                go.wait(3)
+            return None if state["alive"] else 0
+    calls = []
+    w = ProcessWatcher(P(), lambda: calls.append(1))
+    w.start()
+    if not in_poll.wait(2):
+        return ["watcher never polled"]
+    if exited_before_stop:
+        state["alive"] = False
+        w.stop()
+    else:
+        w.stop()
+        state["alive"] = False
+    go.set()
+    w.join(2)
+    if w.is_alive():
+        out.append("watcher thread did not exit after stop()")
+    if calls:
+        out.append(f"watcher stopped while inside poll() ({'child exited, then stop()' if exited_before_stop else 'stop(), then child exited'}) still called the termination callback {len(calls)}x")
+    return out
+
+
+def trick_event_while_watcher_polls():
+    def body(t):
+        tr = tricks.AutoRestartTrick(["cmd"], restart_on_command_exit=True, debounce_interval_seconds=0, kill_after=0.1)
+        in_poll, go = threading.Event(), threading.Event()
+        orig = FakePopen.poll
+        first = []
+
+        def poll(self):
+            if not first and threading.current_thread() is not threading.main_thread() and self.pid == 1001:
+                first.append(1)
+                in_poll.set()
+                go.wait(3)
+            return orig(self)
+        FakePopen.poll = poll
+        try:
+            tr.start()
+            out = []
+            if not in_poll.wait(2):
+                out.append("watcher of the first child never polled")
+            from watchdog.events import FileModifiedEvent
+            tr.dispatch(FileModifiedEvent("x.py"))     # one restart: child 1001 killed, 1002 started
+            go.set()
+            realtime.sleep(0.35)
+            spawned = [e[1] for e in t.log if e[0] == "spawn"]
+            if tr.restart_count != 1 or len(spawned) != 2:
+                out.append(f"one event while the first child's watcher was inside poll(): restart_count={tr.restart_count}, children spawned={spawned} (expected one restart, two children)")
+            if t.max_alive > 1:
+                out.append(f"{t.max_alive} children alive at once")
+            tr.stop()
+            if t.alive:
+                out.append(f"children alive after stop(): {sorted(t.alive)}")
+            return out
+        finally:
+            FakePopen.poll = orig
+    return with_table(body)
+
+
+SCEN = {"pw:stop-during-poll(stop first)": lambda: watcher_stop_during_poll(False), "pw:stop-during-poll(exit first)": lambda: watcher_stop_during_poll(True), "trick:event-while-watcher-polls": trick_event_while_watcher_polls,
+        "deb:event-before-first-wait": lambda: deb_scenario("event-before-first-wait"), "deb:stop-before-first-wait": lambda: deb_scenario("stop-before-first-wait"),
         "deb:order-and-once": lambda: deb_scenario("order-and-once"), "deb:nothing-after-stop": lambda: deb_scenario("nothing-after-stop"), "deb:quiet-interval": deb_timing,
         "trick:stop-during-restart": trick_stop_during_restart}
 for w, dr in itertools.product((False, True), repeat=2):
